@@ -547,6 +547,13 @@ func (m *Monitors) onSend(n *Node, sm *SentMsg) {
 	lower := sm.AtH == meta.H && sm.AtV > meta.V
 	switch meta.Union {
 	case UPP, UNV:
+		if b := fakes.AsBlock(sm.Raw.Block); b != nil {
+			for _, pc := range n.BU.Proposals {
+				if pc.CancelledDuring && pc.BlockID == b.ID {
+					m.fail("C15", "cancelled-proposal-broadcast", "node %d broadcast block %s, which its RequestNewBlockProposal returned after the call's context had been cancelled (an election / sync told the node to leave that position while the call was in progress)", n.Idx, b.ID)
+				}
+			}
+		}
 		if old, ok := nm.proposals[key]; ok && old != meta.Hash {
 			m.fail("C10", "two-proposals-signed", "node %d signed two different proposals for (h=%d,v=%d)", n.Idx, meta.H, meta.V)
 		}
